@@ -178,11 +178,13 @@ func c11Hammer(ops []c11Op, solo []string, g int, r *RNG, perG int) (*c11Mismatc
 	var mu sync.Mutex
 	var first *c11Mismatch
 	total := 0
+	start := make(chan struct{}) // all goroutines begin together
 	for k := 0; k < g; k++ {
 		y := r.Fork()
 		wg.Add(1)
 		go func() {
 			defer wg.Done()
+			<-start
 			n := perG/2 + y.Intn(perG)
 			for j := 0; j < n; j++ {
 				i := y.Intn(len(ops))
@@ -201,6 +203,7 @@ func c11Hammer(ops []c11Op, solo []string, g int, r *RNG, perG int) (*c11Mismatc
 			mu.Unlock()
 		}()
 	}
+	close(start)
 	wg.Wait()
 	return first, total
 }
@@ -484,6 +487,30 @@ func init() {
 			}
 		}
 
+		// first-touch: the reference results come from one loaded instance, the concurrent reads are the
+		// FIRST reads of a second instance loaded from the same bytes (a lazy conversion or a cache
+		// filled on first use would be exercised concurrently)
+		runFirstTouch := func(ref, untouched *c11Inst) {
+			refOps := c11Ops(ref)
+			solo := make([]string, len(refOps))
+			y0 := c.R.Fork()
+			for i, o := range refOps {
+				solo[i] = o.run(y0)
+			}
+			ops := c11Ops(untouched)
+			g := []int{4, 8, 16}[c.R.Intn(3)]
+			c.Or.Case(fmt.Sprint("first-touch", untouched.label, untouched.desc, g), untouched.nkeys >= 2)
+			c.Or.Count("instance:first-touch")
+			mm, n := c11Hammer(ops, solo, g, c.R, perG)
+			totalOps += n
+			if mm != nil && !reported["C11:first-concurrent-reads-differ"] {
+				reported["C11:first-concurrent-reads-differ"] = true
+				c.Or.Violate("C11:first-concurrent-reads-differ", fmt.Sprintf("C11: %d goroutines performing the first reads of a freshly loaded %s instance: %s returned a result different from the result of the same call on a separately loaded instance read by one goroutine", mm.g, untouched.label, mm.op),
+					map[string]interface{}{"property": "C11", "instance": untouched.label, "case": untouched.desc, "op": mm.op, "goroutines": mm.g,
+						"seed": c.Seed, "got": c11Short(mm.got), "want": c11Short(mm.want)})
+			}
+		}
+
 		for i := 0; i < ncases; i++ {
 			tc := genTrieCase(c.R.Fork(), fmt.Sprintf("c11_%d", i), c.R.Intn(KKindCnt), c.R.Intn(VKindCnt), 2, 24)
 			if i%3 == 0 {
@@ -527,8 +554,23 @@ func init() {
 			}
 			keys := testkeys.Load(fx.set)
 			complete := strings.Contains(fx.file, "allpref")
-			runInst(&c11Inst{"legacy:" + fx.file, st, spec, c11QueriesOf(c.R, keys, 16), complete, len(keys),
-				map[string]interface{}{"fixture": fx.file, "keys": "testkeys.Load(" + fx.set + ")", "encoder": "I32"}})
+			qs := c11QueriesOf(c.R, keys, 16)
+			fdesc := map[string]interface{}{"fixture": fx.file, "keys": "testkeys.Load(" + fx.set + ")", "encoder": "I32"}
+			// first-touch on a second, untouched instance loaded from the same bytes
+			reps := 2
+			if strings.Contains(fx.file, "pref-0.5.10") {
+				reps = c.N(12, 40) // layouts whose load re-encodes stored prefixes
+			}
+			for rep := 0; rep < reps; rep++ {
+				st2, _ := trie.NewSlimTrie(spec.Enc, nil, nil)
+				var uerr2 error
+				s2, _ := protect(func() string { uerr2 = st2.Unmarshal(buf); return "" })
+				if s2 != "PANIC" && uerr2 == nil {
+					runFirstTouch(&c11Inst{"legacy:" + fx.file, st, spec, qs, complete, len(keys), fdesc},
+						&c11Inst{"legacy:" + fx.file, st2, spec, qs, complete, len(keys), fdesc})
+				}
+			}
+			runInst(&c11Inst{"legacy:" + fx.file, st, spec, qs, complete, len(keys), fdesc})
 		}
 		c.Or.Add("concurrent-ops", totalOps)
 
